@@ -382,6 +382,12 @@ def c01_w2(run, cnt, res, ctx):
         if mech == "c01_weight" and w.get("is_strategy") and w.get("root_bankrupt"):
             mech = "k5_weight"
         return (mech, w)
+    # the recorded history describes one state per date (read before anything refreshes the tree)
+    for who, r in mon1.trees(run.root):
+        v, n = mon1.row_identity(r, who)
+        bump(cnt, "row_identity_evals", n)
+        if v:
+            return v
     # end-of-run identity on every tree
     for who, r in mon1.trees(run.root):
         v, n = mon1.check_identity(r, who)
@@ -389,6 +395,17 @@ def c01_w2(run, cnt, res, ctx):
         if v:
             return v[0]
     return ctx.rows.check_rows(run, cnt)
+
+
+def c01_rows_only(run, cnt, res):
+    if run.root is not None and run.root.bankrupt:
+        bump(cnt, "obs_bankrupt_runs")
+    for who, r in mon1.trees(run.root):
+        v, n = mon1.row_identity(r, who)
+        bump(cnt, "row_identity_evals", n)
+        if v:
+            return v
+    return None
 
 
 class InjectCtx(SharedCtx):
